@@ -74,8 +74,13 @@ func DateTimeFromProto(proto *dtpb.DateTime) (DateTime, error) {
 		return DateTime{}, err
 	}
 	var l layout
+	// Partial values carry no offset: keep the civil components the proto's
+	// zone yields, down to its precision, anchored like a parsed literal.
+	year, month, day := t.Date()
 	switch proto.Precision {
 	case dtpb.DateTime_MICROSECOND:
+		// System DateTimes hold milliseconds at most.
+		t = t.Truncate(time.Millisecond)
 		fallthrough
 	case dtpb.DateTime_MILLISECOND:
 		l = dtMillisecondLayoutTZ
@@ -83,10 +88,13 @@ func DateTimeFromProto(proto *dtpb.DateTime) (DateTime, error) {
 		l = dtSecondLayoutTZ
 	case dtpb.DateTime_DAY:
 		l = dtDayLayout
+		t = time.Date(year, month, day, 0, 0, 0, 0, time.UTC)
 	case dtpb.DateTime_MONTH:
 		l = dtMonthLayout
+		t = time.Date(year, month, 1, 0, 0, 0, 0, time.UTC)
 	case dtpb.DateTime_YEAR:
 		l = dtYearLayout
+		t = time.Date(year, time.January, 1, 0, 0, 0, 0, time.UTC)
 	}
 	return DateTime{t, l}, nil
 }
